@@ -34,7 +34,7 @@ StripActs(acts) == [q \in 1 .. Len(acts) |-> [acts[q] EXCEPT !.lg = <<>>]]
 \* an event with everything removed that may legitimately differ between lanes
 Norm(e, logs) ==
     CASE e.e = "call" -> IF e.op = "ctor" THEN [e EXCEPT !.i = 0, !.a = 0, !.b = 0, !.p = IF logs THEN 0 ELSE @]
-                         ELSE IF e.op = "copy" THEN [e EXCEPT !.i = 0, !.a = 0] ELSE [e EXCEPT !.i = 0]
+                         ELSE IF e.op \in {"copy", "move"} THEN [e EXCEPT !.i = 0, !.a = 0] ELSE [e EXCEPT !.i = 0]
       [] e.e = "cb"   -> IF logs THEN [e EXCEPT !.i = 0, !.pre = <<>>, !.acts = StripActs(@)] ELSE [e EXCEPT !.i = 0]
       [] e.e = "ret"  -> IF logs THEN [e EXCEPT !.i = 0, !.pre = <<>>] ELSE [e EXCEPT !.i = 0]
       [] OTHER -> e
@@ -61,7 +61,7 @@ Step ==
                     newburst == e.e = "call"
                     p1 == IF follower THEN (IF newburst THEN 1 ELSE pos + 1) ELSE 0
                     logs == i \in nolog
-                    isCopy == e.e = "call" /\ e.op = "copy"
+                    isCopy == e.e = "call" /\ e.op \in {"copy", "move"}
                     comparable == follower /\ ~isCopy /\ csrc = NONE /\ ~(e.e # "call" /\ cmpi # i)
                     short == mode = "lanes" /\ newburst /\ cmpi \in Inst /\ pos > 0 /\ pos < Len(ref)      \* the previous follower stopped early
                     mismatch == comparable /\ (p1 > Len(ref) \/ Norm(ref[p1], logs) # Norm(e, logs))
@@ -70,7 +70,7 @@ Step ==
                                 ELSE Find("C17", "two instances given the same calls and callback decisions behave differently (memory contents at construction / copy)"))
                           ELSE bad
                     \* ---- copies observe like their source
-                    b2 == IF e.e = "ret" /\ e.op = "copy" /\ csrc \in Inst /\ ObsOf(e) # lastobs[csrc]
+                    b2 == IF e.e = "ret" /\ e.op \in {"copy", "move"} /\ csrc \in Inst /\ ObsOf(e) # lastobs[csrc]
                           THEN IF \E b \in b1 : b[1] = "C17" THEN b1 ELSE b1 \cup {<<"C17", l, "a copy-constructed machine does not observe like its source at the moment of copying">>}
                           ELSE b1
                     \* ---- replica
